@@ -34,7 +34,8 @@ PROBES = ['save_subset_of_its', 'save_unsorted_it', 'overwrite',
           'read_dup_or_unsorted_it', 'io_fault_fired_in_save',
           'io_fault_fired_in_read', 'read_after_failed_save',
           'uncertain_entry_compared', 'scribbled_on_returned_arrays',
-          'scribbled_on_saved_arrays', 'save_unknown_var_raises']
+          'scribbled_on_saved_arrays', 'save_unknown_var_raises',
+          'kept_returned_arrays']
 COMPONENTS = {'aurel.reading.save_data': 'real', 'aurel.reading.read_data':
               'real', 'aurel.reading.read_aurel_data': 'real', 'h5py + '
               'filesystem (tmpfs scratch dir)': 'real',
@@ -263,6 +264,17 @@ def _execute(run, aurel, plan):
     compared = 0
     stop = False
     failed_save_seen = False
+    handed = []           # (description, array, digest) returned by reads
+
+    def handed_changed(opi, what):
+        for desc, arr, dg in handed:
+            if digest(arr) != dg:
+                viol.append({'sig': 'mutation:changed:read_data_result',
+                             'op': opi,
+                             'msg': f'op#{opi} {what} changed, in place, the '
+                                    f'array that {desc} had returned'})
+                return True
+        return False
     for opi, op in enumerate(run['ops']):
         if stop:
             break
@@ -391,6 +403,8 @@ def _execute(run, aurel, plan):
                 probe('scribbled_on_saved_arrays')
             tr.event('save', op=op, outcome=outcome,
                      fired=(fired or {}).get('what'))
+            if handed_changed(opi, 'save_data'):
+                break
         else:
             kwargs = {'it': list(op['it']), 'rl': op['rl']}
             if op.get('kw_it_array'):
@@ -428,6 +442,8 @@ def _execute(run, aurel, plan):
                              'msg': f'op#{opi} read_data changed its '
                                     f'arguments in place: {kwargs}'})
             tr.event('read', op=op, result=digest(got))
+            if handed_changed(opi, 'read_data'):
+                break
             # ---- oracle ----------------------------------------------------
             if list(np.asarray(got.get('it', [])).tolist()) != its:
                 viol.append({'sig': 'read:it_column', 'op': opi,
@@ -522,6 +538,15 @@ def _execute(run, aurel, plan):
                             'sig': f'read:wrong_array:{kind}', 'op': opi,
                             'msg': f'op#{opi} read it={iv} var={v!r} rl={rl}'
                                    f' returned [{src}] but expected [{eo}]'})
+            if not op.get('scribble'):
+                # the caller keeps what it got (e.g. inside an AurelCore)
+                for v in sorted(got):
+                    if isinstance(got[v], list):
+                        for pos, a in enumerate(got[v]):
+                            if isinstance(a, np.ndarray) and a.size:
+                                handed.append((f'op#{opi} read {v!r}[{pos}]',
+                                               a, digest(a)))
+                probe('kept_returned_arrays')
             if op.get('scribble'):
                 # the caller works on what it got (normalises, masks ...)
                 for v in sorted(got):
@@ -530,7 +555,8 @@ def _execute(run, aurel, plan):
                         continue               # the 'it' column
                     for a in colv:
                         if isinstance(a, np.ndarray) and a.size \
-                                and a.flags.writeable:
+                                and a.flags.writeable and not any(
+                                    a is h[1] for h in handed):
                             a[...] = -555
                 probe('scribbled_on_returned_arrays')
             if viol:
